@@ -189,3 +189,13 @@ func init() {
 		NonTrivial: func(fp string) bool { return true },
 	}
 }
+
+func init() {
+	metaTable["C16"] = propMeta{Level: "exploration", Assumptions: append(append([]string{}, commonAssumptions...),
+		"TCP between client/peer and server is a simulated reliable byte stream with PRNG-chosen read segmentation",
+		"a client that pipelines application data behind ConnectionBind before its success response is outside RFC 6062 and not generated"),
+		Rule: "1-3 TCP allocations on TCP control connections; random sequences of Connect (listening peer / nobody listening / duplicate), inbound peer connections from permitted and unpermitted IPs, ConnectionBind on fresh data connections (right, wrong id, wrong user, repeated; at <=29 s and >=31 s), byte streams of 0..64 KiB both ways under random segmentation, closes from either side, jumps to 29 s / 31 s after creation; after duplicate Connect, ConnectionBind and close steps the manager locks must be free (hook) and an authenticated Refresh must be answered; " +
+			"oracle: model of peer connections (id, peer, age, bound) + byte-for-byte stream comparison at quiescent points; non-trivial = distinct (operation, situation, response code) fingerprints",
+		NonTrivial: func(fp string) bool { return true },
+	}
+}
